@@ -23,11 +23,12 @@ def engine_for(crates, overflow="on"):
 class Ctx:
     """what a harness sees: the engine plus obligation / finding helpers"""
 
-    def __init__(s, eng, prop, hname):
-        s.eng, s.prop, s.hname = eng, prop, hname
+    def __init__(s, eng, prop, hname, tier="quick"):
+        s.eng, s.prop, s.hname, s.tier = eng, prop, hname, tier
         s.findings = []
         s.samples = []
         s.named = {}        # name -> z3 term, for counterexample printing
+        s.unsigned = set()
         s.seen_shapes = set()
         s.oblig_names = {}
 
@@ -35,6 +36,14 @@ class Ctx:
         v = s.eng.fresh_int("%s!%s" % (s.hname, name), ty)
         s.named[name] = v
         return v
+
+    def sym_amount(s, name, bits=62):
+        """a non-negative i128 amount below 2^bits, encoded as a zero-extended narrow vector so
+        that the solver sees the constant upper bits (same claim as `0 <= x < 2^bits`)"""
+        v = z3.BitVec("%s!%s" % (s.hname, name), bits)
+        s.named[name] = v
+        s.unsigned.add(name)
+        return z3.ZeroExt(128 - bits, v)
 
     def sym_bool(s, name):
         v = s.eng.fresh_bool("%s!%s" % (s.hname, name))
@@ -49,7 +58,7 @@ class Ctx:
                 if z3.is_bool(v):
                     out[k] = z3.is_true(v)
                 else:
-                    out[k] = v.as_signed_long() if k.endswith("_s") or True else v.as_long()
+                    out[k] = v.as_long() if k in s.unsigned else v.as_signed_long()
             except Exception:
                 pass
         return out
@@ -84,6 +93,52 @@ class Ctx:
         return s.require(False, name, shape, site, extra, replay)
 
 
+def run_one(prop, hname, tier, seed):
+    """run one harness in this process -> picklable result"""
+    mod = importlib.import_module("harness.%s" % prop.lower())
+    h = [x for x in mod.HARNESSES if x["name"] == hname][0]
+    t0 = time.time()
+    eng = engine_for(h["crates"], h.get("overflow", "on"))
+    from engine import Stats
+    eng.stats = Stats()
+    eng.map_order = h.get("map_order", "fixed")
+    eng.max_steps = h.get("max_steps", 400000)
+    eng.overrides = {}
+    ctx = Ctx(eng, prop, h["name"], tier)
+    status, why = "ok", ""
+    try:
+        eng.run(lambda e: h["fn"](ctx, tier, seed), max_paths=h.get("max_paths", 20000),
+                time_limit=h.get("time_limit_%s" % tier, h.get("time_limit", 600)))
+    except Unmodelled as e:
+        status, why = "inconclusive", "UNMODELLED %s" % e
+    except StepLimit as e:
+        status, why = "inconclusive", str(e)
+    except RecursionError as e:
+        status, why = "inconclusive", "recursion limit"
+    except Panic as e:
+        status, why = "inconclusive", "uncaught panic path in harness: %s" % e
+    st = eng.stats
+    if status == "ok" and st.paths == 0:
+        status, why = "inconclusive", "vacuous: no feasible path completed"
+    if status == "ok" and st.obligations == 0 and not h.get("no_obligations_ok"):
+        status, why = "inconclusive", "vacuous: no obligation reached"
+    return dict(name=h["name"], status=status, why=why, paths=st.paths, pruned=st.pruned, decisions=st.decisions,
+                panic_paths=st.panic_paths, obligations=st.obligations, discharged=st.discharged, queries=st.queries,
+                solver_s=st.solver_s, steps=st.steps, wall_s=time.time() - t0, bounds=h["bounds"],
+                fns=sorted(st.fns_executed), models=sorted(st.models_used), map_order=eng.map_order,
+                samples=ctx.samples,
+                findings=[dict(prop=f.prop, harness=f.harness, site=f.site, shape=f.shape, detail=f.detail, case=f.case, replayed=f.replayed) for f in ctx.findings])
+
+
+def _worker(args):
+    try:
+        return run_one(*args)
+    except Exception as e:       # a crash of the machinery is inconclusive, never a verdict
+        return dict(name=args[1], status="inconclusive", why="harness crashed: %s: %s" % (type(e).__name__, str(e)[:300]), paths=0, pruned=0,
+                    decisions=0, panic_paths=0, obligations=0, discharged=0, queries=0, solver_s=0.0, steps=0, wall_s=0.0,
+                    bounds="", fns=[], models=[], map_order="", samples=[], findings=[])
+
+
 def run(prop, tier, seed, cov, findings, inconclusive, assumptions, only=None):
     try:
         mod = importlib.import_module("harness.%s" % prop.lower())
@@ -91,60 +146,49 @@ def run(prop, tier, seed, cov, findings, inconclusive, assumptions, only=None):
         if "harness." in str(e):
             return
         raise
+    hs = [h for h in mod.HARNESSES if (tier == "thorough" or h.get("tier", "quick") == "quick") and (not only or h["name"] in only.split(","))]
+    if not hs:
+        return
+    # dump the MIR once (in this process) so that the workers find it cached
+    for h in hs:
+        for c in h["crates"]:
+            mirdump.dump(c, h.get("overflow", "on"))
+    jobs = int(os.environ.get("MIRSYM_JOBS", "12"))
+    args = [(prop, h["name"], tier, seed) for h in hs]
+    if jobs > 1 and len(hs) > 1:
+        import multiprocessing as mp
+        with mp.get_context("fork").Pool(min(jobs, len(hs))) as pool:
+            results = pool.map(_worker, args, chunksize=1)
+    else:
+        results = [_worker(a) for a in args]
     used_models = {}
-    fns_exec = {}
-    for h in mod.HARNESSES:
-        if tier == "quick" and h.get("tier", "quick") != "quick":
-            continue
-        if only and h["name"] not in only.split(","):
-            continue
-        t0 = time.time()
-        eng = engine_for(h["crates"], h.get("overflow", "on"))
-        from engine import Stats
-        eng.stats = Stats()
-        eng.map_order = h.get("map_order", "fixed")
-        eng.max_steps = h.get("max_steps", 400000)
-        ctx = Ctx(eng, prop, h["name"])
-        status, why = "ok", ""
-        try:
-            eng.run(lambda e: h["fn"](ctx, tier, seed), max_paths=h.get("max_paths", 20000),
-                    time_limit=h.get("time_limit_%s" % tier, h.get("time_limit", 600)))
-        except Unmodelled as e:
-            status, why = "inconclusive", "UNMODELLED %s" % e
-        except StepLimit as e:
-            status, why = "inconclusive", str(e)
-        except RecursionError as e:
-            status, why = "inconclusive", "recursion limit"
-        st = eng.stats
-        if status == "ok" and st.paths == 0:
-            status, why = "inconclusive", "vacuous: no feasible path completed"
-        if status == "ok" and st.obligations == 0 and not h.get("no_obligations_ok"):
-            status, why = "inconclusive", "vacuous: no obligation reached"
-        if status == "inconclusive":
-            inconclusive.append("M harness %s: %s" % (h["name"], why))
-        cov["harnesses"].append(dict(engine="M", harness=h["name"], status=status, why=why, paths=st.paths, pruned=st.pruned,
-                                     decisions=st.decisions, panic_paths=st.panic_paths, obligations=st.obligations,
-                                     discharged=st.discharged, queries=st.queries, solver_s=round(st.solver_s, 2),
-                                     mir_steps=st.steps, wall_s=round(time.time() - t0, 2), bounds=h["bounds"],
-                                     functions=sorted(st.fns_executed)[:60], models=sorted(st.models_used), map_order=eng.map_order))
-        cov["states"] += st.paths
-        cov["transitions"] += st.decisions + st.paths
-        cov["queries"] += st.queries
-        cov["solver_s"] += st.solver_s
-        cov["obligations"] += st.obligations
-        cov["discharged"] += st.discharged
-        cov["bounds"].append("%s: %s" % (h["name"], h["bounds"]))
-        for f in sorted(st.fns_executed):
+    for r in results:
+        if r["status"] == "inconclusive":
+            inconclusive.append("M harness %s: %s" % (r["name"], r["why"]))
+        cov["harnesses"].append(dict(engine="M", harness=r["name"], status=r["status"], why=r["why"], paths=r["paths"], pruned=r["pruned"],
+                                     decisions=r["decisions"], panic_paths=r["panic_paths"], obligations=r["obligations"],
+                                     discharged=r["discharged"], queries=r["queries"], solver_s=round(r["solver_s"], 2),
+                                     mir_steps=r["steps"], wall_s=round(r["wall_s"], 2), bounds=r["bounds"],
+                                     functions=r["fns"][:60], models=r["models"], map_order=r["map_order"]))
+        cov["states"] += r["paths"]
+        cov["transitions"] += r["decisions"] + r["paths"]
+        cov["queries"] += r["queries"]
+        cov["solver_s"] += r["solver_s"]
+        cov["obligations"] += r["obligations"]
+        cov["discharged"] += r["discharged"]
+        cov["bounds"].append("%s: %s" % (r["name"], r["bounds"]))
+        for f in r["fns"]:
             if f not in cov["functions_encoded"]:
                 cov["functions_encoded"].append(f)
-        for m in st.models_used:
+        for m in r["models"]:
             used_models[m] = 1
-        for smp in ctx.samples:
+        for smp in r["samples"]:
             if len(cov["samples"]) < 10:
                 cov["samples"].append(dict(engine="M", **smp))
-        for f in ctx.findings:
-            findings.append(f)
-            if f.replayed:
+        for f in r["findings"]:
+            ff = Finding(f["prop"], f["harness"], f["site"], f["shape"], f["detail"], f["case"], f["replayed"])
+            findings.append(ff)
+            if ff.replayed:
                 cov["traces_validated_against_impl"] += 1
     if used_models:
         cov["trusted_base"] += ["mirsym MIR interpreter (z3 %s)" % z3.get_version_string(), "std models: " + ", ".join(sorted(used_models))]
